@@ -21,6 +21,16 @@ standins.patch_clock(standins.CounterClock(1_600_000_000.0), _mo, _so)
 LAST_DETAIL = None
 RID = ["r1", "r2"]
 
+import datetime as _dt
+class TickingDatetime(_dt.datetime):
+    """strictly increasing now(): the creation time of a history record (real clock in production) never ties"""
+    _n = 0
+    @classmethod
+    def now(cls, tz=None):
+        cls._n += 1
+        return _dt.datetime(2021, 1, 1, tzinfo=tz) + _dt.timedelta(milliseconds=cls._n)
+bsb.datetime = TickingDatetime
+
 def body() -> int:
     return 1
 
@@ -66,6 +76,10 @@ def run_seq(kind, reqs, order):
     by_change = sorted(hist, key=lambda h: h.status_record.timestamp)
     got = [(h.status_record.status.value, h.runner_context_id) for h in by_change]
     ok = got == expected and all(h.invocation_id == iid for h in hist)
+    # the changes of this history are made one after the other (each record is created right after its change), so the
+    # history AS RETURNED (ordered by the stored history time) must be in change order too, however late the writers ran
+    returned = [(h.status_record.status.value, h.runner_context_id) for h in hist]
+    ok_returned = returned == expected
     other_after = [(h.status_record.status, h.runner_context_id) for h in app.state_backend.get_history(other)]
     ok = ok and other_after == other_before
     # ties in the change time would make the order ambiguous: require strictly increasing change times
@@ -73,8 +87,10 @@ def run_seq(kind, reqs, order):
     strictly = all(a < b for a, b in zip(ts, ts[1:]))
     LAST_DETAIL = {"kind": kind, "requests": [(STATUSES[n], RID[r]) for n, r in reqs], "order": order, "expected": expected, "got": got,
                    "other": (other_before, other_after), "strict_times": strictly,
-                   "why": None if ok else ("C10:history-differs-from-changes" if other_after == other_before else "C10:other-invocation-history-touched")}
-    return ok and strictly
+                   "returned": returned,
+                   "why": ("C10:history-differs-from-changes" if other_after == other_before else "C10:other-invocation-history-touched") if not ok
+                          else (None if ok_returned else "C10:get_history-order-differs-from-change-order")}
+    return ok and strictly and ok_returned
 
 def go(reqs, order):
     reqs = [(pick(n, 0, 13), pick(r, 0, 1)) for (n, r) in reqs]
@@ -152,6 +168,7 @@ def run(ctx: Ctx) -> None:
     ctx.bounds = {"sequences": "2 free requests from REGISTERED; 2 free requests after [PENDING by r1] and after [PENDING, RUNNING by r1]; 14 statuses x 2 runners each",
                   "writers": "history writer threads deferred until after the last request and run in start order / reversed / rotated",
                   "backends": "in-memory and SQLite in the same path"}
-    ctx.stubs += ["threading.Thread in base_state_backend -> DeferredThread (writers run when the harness says so)", "counter clock in orchestrators, deterministic uuid4"]
+    ctx.stubs += ["threading.Thread in base_state_backend -> DeferredThread (writers run when the harness says so)", "datetime.now in base_state_backend -> strictly increasing instants", "counter clock in orchestrators, deterministic uuid4"]
     ctx.assumptions += ["order is taken from the change time stored in each status record (InvocationStatusRecord.timestamp); with the real clock two changes are assumed not to share a microsecond",
-                        "history ordering as returned by get_history() itself (by write-call time) is not claimed: see DESIGN (late writers)"]
+                        "history order AS RETURNED by get_history() (by the creation time of the history record) is claimed for changes made one after the other with arbitrarily late writers; "
+                        "when a setter is preempted between its transition and the creation of its history record (part 2) only the order by change time is claimed"]
